@@ -363,6 +363,16 @@ class Project:
             for t in st.targets:
                 if isinstance(t, ast.Name):
                     m.assigns[t.id] = st.value
+                elif isinstance(t, (ast.Tuple, ast.List)) and all(isinstance(e, ast.Name) for e in t.elts):
+                    # A, B, C = <expr>: each name stands for <expr>[i] (literal elements directly)
+                    for i, e in enumerate(t.elts):
+                        if isinstance(st.value, (ast.Tuple, ast.List)) and len(st.value.elts) == len(t.elts):
+                            m.assigns[e.id] = st.value.elts[i]
+                        elif isinstance(st.value, ast.Call) and attr_chain(st.value.func) == "range" and len(st.value.args) == 1 \
+                                and isinstance(st.value.args[0], ast.Constant) and st.value.args[0].value == len(t.elts):
+                            m.assigns[e.id] = ast.copy_location(ast.Constant(value=i), st.value)
+                        else:
+                            m.assigns[e.id] = ast.copy_location(ast.Subscript(value=st.value, slice=ast.Constant(value=i), ctx=ast.Load()), st.value)
         elif isinstance(st, ast.AnnAssign) and isinstance(st.target, ast.Name) and st.value is not None:
             m.assigns[st.target.id] = st.value
         elif isinstance(st, (ast.If, ast.Try)):
